@@ -15,6 +15,7 @@ import resource
 import select
 import shutil
 import signal
+import struct
 import subprocess
 import sys
 import tempfile
@@ -243,7 +244,15 @@ class Worker:
         self.proc = None
         return rc, tail
 
-    def call(self, verb, *args, limit=None, timeout=None, skew=None):
+    def _cpu_seconds(self):
+        """CPU time (user + system) the worker process has consumed so far; independent of machine load"""
+        try:
+            f = open("/proc/%d/stat" % self.proc.pid).read().rsplit(")", 1)[1].split()
+            return (int(f[11]) + int(f[12])) / os.sysconf("SC_CLK_TCK")
+        except (OSError, ValueError, IndexError):
+            return None
+
+    def call(self, verb, *args, limit=None, timeout=None, skew=None, progress=None, case_cpu_s=None):
         """execute one command; always returns a Rec (aborts / timeouts are synthesized).
         skew: the library gets its input buffers this many bytes off their allocation's alignment (default: cycles 0..3 with the
         command number, so every verb is also exercised with odd-address buffers; a replay passes the recorded value)"""
@@ -264,8 +273,31 @@ class Worker:
         except (BrokenPipeError, OSError):
             pass
         oversize = []
+        tmo = (timeout or WATCHDOG_S) if self.variant != "miri" else max(timeout or 0, MIRI_WATCHDOG_S)
+        deadline = time.time() + tmo
+        watch = progress is not None and case_cpu_s is not None and self.variant != "miri"
+        last_case, cpu_mark = None, None
         while True:
-            l = self._readline((timeout or WATCHDOG_S) if self.variant != "miri" else max(timeout or 0, MIRI_WATCHDOG_S))
+            l = self._readline(min(5.0, max(0.1, deadline - time.time())) if watch else tmo)
+            if l is None and watch and time.time() < deadline:
+                # a batch reports the case in flight through its progress file: a case that has burnt far more CPU time than its
+                # budget without finishing "runs unboundedly" - a verdict on CPU time, not on the wall clock
+                try:
+                    case = struct.unpack("<Q", open(progress, "rb").read(8))[0]
+                except Exception:
+                    case = None
+                cpu = self._cpu_seconds()
+                if case is not None and cpu is not None:
+                    if case != last_case:
+                        last_case, cpu_mark = case, cpu
+                    elif cpu - cpu_mark > case_cpu_s:
+                        self.proc.kill()
+                        rc, tail = self._reap()
+                        self.restarts += 1
+                        rec = Rec(seq=seq, verb=verb, outcome="abort:cpu-stall", value=None, mon={}, stderr=tail[-2000:], oversize=oversize, stalled_case=case,
+                                  cpu_s=round(cpu - cpu_mark, 1))
+                        break
+                continue
             if l is None:
                 # watchdog: inconclusive
                 self.proc.kill()
@@ -591,9 +623,9 @@ class ShardCtx:
             self._w = Worker(self.variant, self.scratch)
         return self._w
 
-    def call(self, verb, *args, input_bytes=0, limit="auto", timeout=None):
+    def call(self, verb, *args, input_bytes=0, limit="auto", timeout=None, progress=None, case_cpu_s=None):
         lim = alloc_limit(input_bytes) if limit == "auto" else limit
-        rec = self.w.call(verb, *args, limit=lim, timeout=timeout)
+        rec = self.w.call(verb, *args, limit=lim, timeout=timeout, progress=progress, case_cpu_s=case_cpu_s)
         self.stats.variants[self.variant] += 1
         m = rec.mon
         if m:
